@@ -12,7 +12,7 @@
  */
 #include "bm.h"
 #include <string.h>
-#define VP_ALLOC_SIZES X(0) X(1) X(2) X(3) X(4) X(6) X(8) X(10) X(12) X(14) X(16) X(18) X(20) X(24) X(32)
+#define VP_ALLOC_SIZES X(0) X(1) X(2) X(3) X(4) X(6) X(8) X(10) X(12) X(14) X(16) X(18) X(20) X(22) X(24) X(26) X(28) X(30) X(32)
 #include "vp_alloc.inc"
 
 #ifndef OBS
